@@ -87,10 +87,13 @@ func Census(bubbleOnly bool) []GoroutineState {
 	n := runtime.Stack(buf, true)
 	var out []GoroutineState
 	blocks := strings.Split(string(buf[:n]), "\n\n")
-	self := ""
+	self, myBubble := "", ""
 	if len(blocks) > 0 {
 		if m := goroutineHdr.FindStringSubmatch(blocks[0]); m != nil {
 			self = m[1]
+			if i := strings.Index(m[2], "synctest bubble "); i >= 0 {
+				myBubble = m[2][i:]
+			}
 		}
 	}
 	for _, g := range blocks {
@@ -98,8 +101,11 @@ func Census(bubbleOnly bool) []GoroutineState {
 		if m == nil || m[1] == self {
 			continue
 		}
-		if bubbleOnly && !strings.Contains(m[2], "synctest bubble") {
-			continue
+		if bubbleOnly {
+			// only goroutines of the caller's own bubble (earlier, dead bubbles may still hold leaked goroutines)
+			if myBubble == "" || !strings.HasSuffix(m[2], myBubble) {
+				continue
+			}
 		}
 		lines := strings.Split(g, "\n")
 		top := ""
